@@ -256,7 +256,9 @@ pub fn relay_cell(spec: &Value) -> Value {
     };
     let upload = spec["upload"].as_bool().unwrap();
     let drop_nth = spec["drop"].as_u64().unwrap() as usize;
-    let len = 1300usize;
+    // optional window options: a loss inside a wide window makes the receiver re-acknowledge once per following block
+    let wopt: Option<(u64, u64)> = spec["ws"].as_u64().map(|w| (spec["blk"].as_u64().unwrap_or(8), w));
+    let len = spec["len"].as_u64().unwrap_or(1300) as usize;
     let data = body(len);
     let cdir = format!("{}/relay_cl", srv.root);
     let _ = std::fs::create_dir_all(&cdir);
@@ -280,6 +282,9 @@ pub fn relay_cell(spec: &Value) -> Value {
         dst = format!("{cdir}/{fname}");
     }
     args.extend(["-i".into(), "127.0.0.1".into(), "-p".into(), port.to_string(), "-t".into(), "1".into()]);
+    if let Some((blk, ws)) = wopt {
+        args.extend(["-b".into(), blk.to_string(), "-w".into(), ws.to_string()]);
+    }
     let t0 = Instant::now();
     let r = run_client(args, Duration::from_secs(25));
     let took = t0.elapsed().as_secs_f64();
@@ -290,7 +295,7 @@ pub fn relay_cell(spec: &Value) -> Value {
     while workers_alive() && t1.elapsed() < Duration::from_secs(8) {
         std::thread::sleep(Duration::from_millis(20));
     }
-    let desc = format!("{} of {len} bytes with -t 1 through a relay that loses datagram #{drop_nth} ({:?}), took {:.1} s", if upload { "upload" } else { "download" }, log, took);
+    let desc = format!("{} of {len} bytes with -t 1{} through a relay that loses datagram #{drop_nth} ({:?}), took {:.1} s", if upload { "upload" } else { "download" }, wopt.map(|(b, w)| format!(" -b {b} -w {w}")).unwrap_or_default(), log, took);
     let mut viol: Vec<(String, String)> = vec![];
     match r {
         Err(hung) => viol.push(("client-hangs".into(), format!("{desc}: {hung}"))),
@@ -307,7 +312,7 @@ pub fn relay_cell(spec: &Value) -> Value {
     c.states = 1;
     c.transitions = 8;
     c.nontrivial = 1;
-    c.trace_hashes.insert(fnv64(format!("{upload}{drop_nth}{}", cfg.single).as_bytes()));
+    c.trace_hashes.insert(fnv64(format!("{upload}{drop_nth}{}{:?}", cfg.single, wopt).as_bytes()));
     c.samples.push(json!({"srv": cfg.brief(), "relay": desc}));
     for (clause, what) in viol {
         c.violations.push(Violation { property: prop.clone(), clause, facts: facts(&[("mode", json!("relay"))]), what: format!("[{}] {}", cfg.brief(), what), replay: json!({"engine": "c14_relay", "spec": spec}), weight: 40 });
@@ -332,6 +337,9 @@ pub fn relay_cells(property: &str) -> Vec<Value> {
             for drop in first..first + 3 {
                 v.push(json!({"srv": s.to_json(), "upload": upload, "drop": drop, "property": property}));
             }
+            // a wide window (12 blocks of 8 bytes, 41 blocks in all) that loses its second block: ten out-of-sequence blocks
+            // follow, each answered with the same acknowledgement
+            v.push(json!({"srv": s.to_json(), "upload": upload, "drop": first + 1, "property": property, "ws": 12, "blk": 8, "len": 323}));
         }
     }
     v
@@ -400,6 +408,13 @@ pub fn binary_cell(spec: &Value) -> Value {
         Err(e) => return json!({"machinery_error": e}),
     };
     let sdir = format!("{}/srv", p.dir);
+    // where uploads are stored
+    let rdir = if rd_first { format!("{}/up", p.dir) } else { sdir.clone() };
+    if rd_first {
+        // distinct directories: a file of the upload's name lies in the SEND directory (e.g. the same file was offered for
+        // download before); it is no obstacle for the upload and must not be touched by it
+        let _ = std::fs::write(format!("{sdir}/up.bin"), b"offered for download");
+    }
     let cdir = format!("{}/client", p.dir);
     let _ = std::fs::create_dir_all(format!("{cdir}/sub"));
     let _ = std::fs::create_dir_all(format!("{cdir}/rd"));
@@ -465,6 +480,9 @@ pub fn binary_cell(spec: &Value) -> Value {
             }
         }
         let _ = std::fs::remove_file(&dst);
+        if rd_first && upload && std::fs::read(format!("{sdir}/up.bin")).ok().as_deref() != Some(&b"offered for download"[..]) {
+            viol.push(("upload-touched-send-directory".into(), format!("{desc}: the file of the same name in the send directory changed")));
+        }
         if c.samples.is_empty() {
             c.samples.push(json!({"binaries": "tftpc <-> tftpd", "case": desc}));
         }
@@ -480,7 +498,7 @@ pub fn binary_cell(spec: &Value) -> Value {
             _ => {
                 std::fs::write(format!("{cdir}/dup.bin"), body(300)).unwrap();
                 if kind == "exists" {
-                    std::fs::write(format!("{sdir}/dup.bin"), b"already here").unwrap();
+                    std::fs::write(format!("{rdir}/dup.bin"), b"already here").unwrap();
                 }
                 vec!["dup.bin".into(), "-u".into()]
             }
@@ -497,7 +515,7 @@ pub fn binary_cell(spec: &Value) -> Value {
                 if !d.is_empty() {
                     viol.push(("refusal-created-file".into(), format!("refusal {kind}: client-side tree changed: {:?}", d)));
                 }
-                if kind == "exists" && std::fs::read(format!("{sdir}/dup.bin")).ok().as_deref() != Some(&b"already here"[..]) {
+                if kind == "exists" && std::fs::read(format!("{rdir}/dup.bin")).ok().as_deref() != Some(&b"already here"[..]) {
                     viol.push(("refusal-server-effect".into(), "refusal exists: the existing file on the server changed".into()));
                 }
             }
@@ -796,6 +814,10 @@ pub fn check(tier: Tier) -> Outcome {
             }
             for kind in ["missing", "exists", "readonly"] {
                 cells.push(json!({"ipv6": ipv6, "single": single, "cases": [], "refusal": kind}));
+            }
+            if !ipv6 {
+                // distinct directories: the name exists in the RECEIVE directory only (no --overwrite): refused
+                cells.push(json!({"ipv6": false, "single": single, "rd_first": true, "cases": [], "refusal": "exists"}));
             }
         }
     }
